@@ -86,10 +86,23 @@ def build(spec, hashes=None, chashes=None, fresh_strings=False, plain=False):
         )
         t._h = i if hashes is None else hashes[i]
         tasks.append(t)
-    for i, ts in enumerate(spec["tasks"]):
-        for j, d in ts.get("inputs", []):
-            tasks[i].append_input_task(tasks[j], task_dependency_mode=DEPS[d])
-    workflow = BaseWorkflow(task_list=tasks)
+    if spec.get("wf_build") == "incremental" and not plain:
+        # the workflow is grown through the public API, successors first: a task is registered, then its
+        # predecessors are linked to it (they are not registered yet), then they are registered in turn
+        workflow = BaseWorkflow(task_list=[])
+        for i in reversed(range(len(tasks))):
+            workflow.append_child_task(tasks[i])
+            for j, d in spec["tasks"][i].get("inputs", []):
+                tasks[i].append_input_task(tasks[j], task_dependency_mode=DEPS[d])
+        missing = [t for t in tasks if t not in workflow.task_list]
+        if missing:
+            raise Unsupported("append_child_task dropped %d task(s) that were linked before they were registered" % len(missing))
+        workflow.task_list.sort(key=lambda t: tasks.index(t))     # same listing order as the batch construction
+    else:
+        for i, ts in enumerate(spec["tasks"]):
+            for j, d in ts.get("inputs", []):
+                tasks[i].append_input_task(tasks[j], task_dependency_mode=DEPS[d])
+        workflow = BaseWorkflow(task_list=tasks)
     for t in tasks:
         t.parent_workflow = workflow
 
